@@ -154,8 +154,15 @@ def gen_real_case(rng, cid, max_len=3, max_depth=2, allow=None, short_prob=0.0, 
             Xfit = np.array(X, copy=True)
             Xfit[:, (1 if ep else 0) + ns:] = 0
         from . import datapath as _dpm
-        pres = ['float', 'float', 'fortran', 'view'][cid % 4]
+        pres = ['float', 'float', 'fortran', 'view', 'int'][cid % 5]
         same = Xfit is X
+        if pres == 'int':
+            # whole numbers as an integer-typed matrix; only without an episode column (splitting into episodes
+            # converts to float, which would hide the dtype from the stages)
+            if ep:
+                pres = 'float'
+            else:
+                X = np.round(1.5 * X); Xfit = X if same else np.round(1.5 * Xfit)
         X = _dpm.present(X, pres)
         Xfit = X if same else _dpm.present(Xfit, pres)
         return dict(cid=cid, chain=chain, ns=ns, nu=nu, ep=ep, X=X, Xfit=Xfit, mode=mode, w=w, dims=d,
